@@ -1372,6 +1372,13 @@ def _finalize_results(
         finalized["groups"] = expected_groups
     else:
         finalized["groups"] = squeezed["groups"]
+        if expected_groups is None:
+            # groups discovered at compute time: when every label is missing the
+            # intermediates carry a placeholder group NaN; it is not a group.
+            keep = notnull(np.asarray(finalized["groups"]))
+            if not keep.all():
+                finalized["groups"] = finalized["groups"][keep]
+                finalized[agg.name] = finalized[agg.name][..., keep]
 
     finalized[agg.name] = finalized[agg.name].astype(agg.dtype["final"], copy=False)
     return finalized
